@@ -5,7 +5,7 @@ repository's 61 tests pass, (3) the demo fails.  Writes seeded/<id>/verify.json.
 usage: verify_seed.py <id> [<id>...]     (base build: /tmp/seedv/base/_b, built beforehand)"""
 import json, os, shutil, subprocess, sys, time
 ROOT = os.path.dirname(os.path.dirname(os.path.abspath(__file__)))
-BASE = "/tmp/seedv/base"
+BASE = os.environ.get("SEED_BASE", "/tmp/seedv/base")
 def sh(cmd, **kw):
     p = subprocess.run(cmd, shell=isinstance(cmd, str), stdout=subprocess.PIPE, stderr=subprocess.STDOUT, text=True, **kw)
     return p.returncode, p.stdout
